@@ -14,3 +14,12 @@ claim('C11',
       'character, which the solver finds and sampling rarely does.',
       'Trusts CrossHair/z3 string models; bounds on length and the configuration list in props/C11.py.',
       'DESIGN.md section 4 C11')
+claim('C05',
+      'Bounded-exhaustive symbolic execution of the real strict parser: for every Unicode string up to the stated '
+      'length (three contexts) and for pinned document skeletons with free holes, every path either returns or raises '
+      'LatexWalkerParseError whose pos is an int inside the input with matching lineno/colno; and for 19 well-formed '
+      'base documents a free character inserted at token boundaries makes the parse fail whenever it is an unmatched '
+      'brace or math shift. Right level: the wrong-exception inputs are specific token adjacencies ("\\a$", an unknown '
+      'control symbol as a single-token argument) that the solver enumerates through the branch structure.',
+      'Trusts CrossHair/z3; bounds on length, the skeleton and base-document lists in props/C05.py and vlib/parsefam.py.',
+      'DESIGN.md section 4 C05')
